@@ -131,24 +131,24 @@ func Main(id, tier string, seed uint64, verbose bool) int {
 func FromSem(ctx *Ctx, rep *sem.Report, rule string, minDecided int, assumptions []string) *Outcome {
 	o := &Outcome{Level: "exploration", Assumptions: assumptions}
 	cov := map[string]any{
-		"evaluations":         rep.Decided,
-		"distinct_nontrivial": len(rep.Sigs),
-		"rule":                rule,
-		"samples":             rep.Samples,
-		"programs_generated":  rep.Programs,
-		"programs_executed":   rep.Usable,
-		"generation_failures": rep.GenFail,
-		"compile_failures":    rep.CompileFail,
-		"documents_by_class":  rep.ByClass,
-		"tool_accepts":        rep.Accepts,
-		"tool_rejects":        rep.Rejects,
-		"model_accepts":       rep.ModelAccept,
-		"model_rejects":       rep.ModelReject,
-		"value_comparisons":   rep.ValueChecks,
-		"dontcare_by_reason":  rep.DontCare,
-		"known_finding_hits":  rep.Known,
-		"child_restarts":      rep.Restarts,
-		"race_reports":        rep.RaceReports,
+		"evaluations":           rep.Decided,
+		"distinct_nontrivial":   len(rep.Sigs),
+		"rule":                  rule,
+		"samples":               rep.Samples,
+		"programs_generated":    rep.Programs,
+		"programs_executed":     rep.Usable,
+		"generation_failures":   rep.GenFail,
+		"compile_failures":      rep.CompileFail,
+		"documents_by_class":    rep.ByClass,
+		"tool_accepts":          rep.Accepts,
+		"tool_rejects":          rep.Rejects,
+		"model_accepts":         rep.ModelAccept,
+		"model_rejects":         rep.ModelReject,
+		"value_comparisons":     rep.ValueChecks,
+		"dontcare_by_reason":    rep.DontCare,
+		"known_finding_hits":    rep.Known,
+		"child_restarts":        rep.Restarts,
+		"race_reports":          rep.RaceReports,
 		"model_selfcheck_drops": rep.ModelSelfFail,
 	}
 	if len(rep.Samples) == 0 {
